@@ -23,14 +23,14 @@ type G struct {
 }
 
 type scheduler struct {
-	gs      []*G
-	cur     *G
-	main    *G
-	killed  bool
-	crash   interface{} // panic that escaped a non-main goroutine
-	crashG  int
-	abort   *abortPath // abort raised on a non-main goroutine
-	wg      sync.WaitGroup
+	gs     []*G
+	cur    *G
+	main   *G
+	killed bool
+	crash  interface{} // panic that escaped a non-main goroutine
+	crashG int
+	abort  *abortPath // abort raised on a non-main goroutine
+	wg     sync.WaitGroup
 }
 
 var sched *scheduler
